@@ -205,7 +205,7 @@ func (g *untypedGen) stmt(depth int, inLoop bool) string {
 func (g *untypedGen) forLoop(depth int) string {
 	r := g.r
 	v := []string{"k", "m"}[r.Intn(2)]
-	switch r.Intn(6) {
+	switch r.Intn(7) {
 	case 0: // complete and counting
 		return fmt.Sprintf("@for(%s = 0; %s < %d; %s++)", v, v, r.Intn(4), v) + g.blockNoContinue(depth-1) + "@end"
 	case 1: // no init, ends by @break
@@ -216,6 +216,8 @@ func (g *untypedGen) forLoop(depth int) string {
 		return "@for(" + g.expr(1) + "; " + g.expr(1) + "; " + g.expr(1) + ")" + g.blockNoContinue(depth-1) + "@break@end"
 	case 4: // no post
 		return fmt.Sprintf("@for(%s = 0; %s < 3; )", v, v) + g.blockNoContinue(depth-1) + "@break@end"
+	case 5: // init and post are plain expressions and the loop makes several passes (the body advances a data variable)
+		return "{{ cnt = 0 }}@for(" + g.expr(1) + "; cnt < 3; " + []string{"cnt++", g.expr(1), "cnt", "cnt--"}[r.Intn(4)] + "){{ cnt = cnt + 1 }}" + g.blockNoContinue(depth-1) + "@end"
 	default: // post of any kind, ends by @break
 		return fmt.Sprintf("@for(%s = %s; ; %s)", v, g.expr(1), g.expr(1)) + g.blockNoContinue(depth-1) + "@break@end"
 	}
